@@ -131,3 +131,21 @@ Proof.
   induction limit as [|l IH]; intros depth cur H; cbn [follow]; [reflexivity|].
   destruct (H cur) as [nxt ->]. apply IH. exact H.
 Qed.
+
+(* ------------------------------------------------------------------ the tidy loop of topicosvg *)
+Section TidyEnds.
+  Variable state : Type.
+  Variable step : state -> state * bool.
+  Variable groups : state -> nat.                     (* number of <g> elements *)
+  (* what _remove_redundant_groups guarantees: it reports a removal only if a group disappeared, and the
+     other steps of the loop body never add groups *)
+  Hypothesis removal_decreases : forall s, snd (step s) = true -> groups (fst (step s)) < groups s.
+
+  Theorem tidy_ends : forall fuel s, groups s < fuel -> exists s', tidy state step fuel s = Some s'.
+  Proof.
+    induction fuel as [|f IH]; intros s H; [lia|]. cbn [tidy].
+    destruct (step s) as [s' removed] eqn:E. destruct removed.
+    - apply IH. pose proof (removal_decreases s) as Hd. rewrite E in Hd. cbn [fst snd] in Hd. specialize (Hd eq_refl). lia.
+    - exists s'. reflexivity.
+  Qed.
+End TidyEnds.
